@@ -241,11 +241,13 @@ def judge(case, obs):
         # a count nobody can materialise must be refused; a program that is merely large may legitimately need longer than
         # the watchdog, so an expiry without such a count in the source is recorded as inconclusive, not as a violation
         # (whatever the killed process had already written says nothing either)
+        if obs.get('unconfirmed'):
+            return []
         if case.get('must_finish'):
             # nothing in these sources is large: the lexer / parser has to refuse them at once.  Its own kind, so that the
             # listed finding about unbounded rep counts and exponents (kind "hang") cannot absorb it
             return [({'kind': 'hang-in-lexer', 'stage': 'lex', 'gen': case['cls']},
-                     f'assembly of a {len(case["files"][0][1]) // 2}-byte source did not finish within {case.get("watchdog", WATCHDOG)} s '
+                     f'assembly of a {len(case["files"][0][1]) // 2}-byte source did not finish within seconds '
                      f'({case["hint"]})')]
         if not (case.get('slow') or HUGE_COUNT.search(case['hint'])):
             return []
@@ -630,8 +632,14 @@ def run(ctx):
     # watchdog expiries are re-run in isolation, with the full period, before being believed
     again = [i for i, o in enumerate(obs) if o['result'] in ('hang', 'crash') and not cases[i].get('slow')
              and cases[i]['cls'] != 'corpus']     # (an unmodified program that needs longer is just not mutated)
+    # the short-limit family: only the six smallest expiries are confirmed (at 8 s); the others stay unconfirmed = inconclusive
+    quick_ones = sorted((i for i in again if cases[i].get('must_finish')), key=lambda i: len(cases[i]['files'][0][1]))
+    for i in quick_ones[6:]:
+        obs[i]['unconfirmed'] = True
+    again = [i for i in again if i not in set(quick_ones[6:])]
     if again:
-        redo = run_cases(ctx, [dict(cases[i], id=f'redo{i}', timeout=cases[i].get('watchdog', WATCHDOG)) for i in again])
+        redo = run_cases(ctx, [dict(cases[i], id=f'redo{i}', timeout=8.0 if cases[i].get('must_finish') else WATCHDOG)
+                               for i in again])
         for i, o in zip(again, redo):
             obs[i] = o
     phases['campaign'] = round(time.time() - t0, 1)
@@ -742,7 +750,7 @@ def replay(ctx, path):
     c = dict(rp['case'])
     c['id'] = 'replay'
     c['text'] = rp.get('source', '')
-    c['timeout'] = c.get('watchdog', WATCHDOG)
+    c['timeout'] = 8.0 if c.get('must_finish') else WATCHDOG
     o = run_cases(ctx, [c])[0]
     print(f'[C14] replay of {path}')
     print(f'  input: w={c["w"]} version={c["v"]} stl={c["stl"]} source={rp.get("source", "")[:400]!r}')
